@@ -1002,7 +1002,7 @@ class AASDataChecker(DataChecker):
             kwargs['value'] = getattr(object_, attribute_name).__name__
             return self.check(getattr(object_, attribute_name) is expected_value,  # type:ignore
                               "Attribute {} of {} must be == {}".format(
-                                  attribute_name, repr(object_), expected_value.__name__),  # type:ignore
+                                  attribute_name, repr(object_), getattr(expected_value, '__name__', expected_value)),
                               **kwargs)
         else:
             kwargs['value'] = getattr(object_, attribute_name)
